@@ -183,5 +183,8 @@ func main() {
 			out.Count(k)
 		}
 	}
+	if out.Samples == nil {
+		out.Samples = []string{} // a run without cases (replay of another mode) must not emit null
+	}
 	out.Finish(*stats, nil)
 }
